@@ -8,6 +8,7 @@ of `Consistent` / `Feasible` by `step`; both are evaluated by the driver on ever
 (`l2_agrees`, `consistent`, `feasible`).
 -/
 import JumanjiModel.Env.Connector.Lemmas
+import JumanjiModel.Env.Connector.Bounds
 open Jm Jx Connector
 
 namespace Props.C04
@@ -157,3 +158,31 @@ step count -/
 theorem connector_observe_documented (n : Nat) (s : State) (h : Grid.shaped s.grid n n = true) :
     observeL1 s = observe n s := Connector.observeL1_eq_observe s h
 end Props.C12
+
+namespace Props.C01
+/-- reset: on a consistent fresh board (`Consistent n k s`: every cell value in `0..3k`, …; step count 0) the
+observation handed out by `reset` has every leaf inside the interval `obsBounds cfg` lists for it:
+`grid ∈ [0, 3k]` (`3k` = target value of the last agent), `action_mask ∈ [0, 1]`, `step_count ∈ [0, time_limit]`
+(all inside the declared spec, whose grid maximum is `3k+2`) -/
+theorem connector_reset_obs_in_bounds (cfg : Cfg) (s : State) (hc : Consistent cfg.n cfg.k s)
+    (hs : s.stepCount = 0) (hT : 0 ≤ cfg.timeLimit) :
+    ObsInBounds (obsBounds cfg) (resetTs cfg s).obs := Connector.reset_obs_in_bounds cfg s hc hs hT
+
+/-- step: for EVERY state (no invariant on grid or agents is needed) whose step count lies in `[0, time_limit)`
+— the episode has not reached the limit; the terminal step that makes `step_count = time_limit` is included —
+and for every joint action, every leaf of the observation is inside its interval of `obsBounds cfg` -/
+theorem connector_step_obs_in_bounds (cfg : Cfg) (s : State) (acts : List Int) (h0 : 0 ≤ s.stepCount)
+    (hT : s.stepCount < cfg.timeLimit) :
+    ObsInBounds (obsBounds cfg) (step cfg s acts).2.obs := Connector.step_obs_in_bounds cfg s acts h0 hT
+
+/-- the bounds list covers every leaf of the observation (the two theorems above are not vacuous) -/
+theorem connector_obs_bounds_cover (cfg : Cfg) (o : Obs) :
+    (obsLeaves o).map (·.1) = (obsBounds cfg).map (·.1) := Connector.obsBounds_cover cfg o
+
+/-- the grid bound is attained (`6 = 3k` on the board below); the step-count bound is attained on the terminal step: with `time_limit = 1` the first step emits
+`step_count = 1 = time_limit` -/
+example : (step ⟨3, 2, 1, 1, -3/100⟩ ⟨[[2, 0, 3], [0, 0, 0], [5, 0, 6]], 0,
+    [⟨0, (0, 0), (0, 2), (0, 0)⟩, ⟨1, (2, 0), (2, 2), (2, 0)⟩]⟩ [2, 0]).2.obs.stepCount = 1 := by decide
+example : Consistent 3 2 ⟨[[2, 0, 3], [0, 0, 0], [5, 0, 6]], 0,
+    [⟨0, (0, 0), (0, 2), (0, 0)⟩, ⟨1, (2, 0), (2, 2), (2, 0)⟩]⟩ := by decide
+end Props.C01
